@@ -2,3 +2,4 @@
    the c15 driver generates address-centred schedules and judges them with the C15 specification oracle. *)
 From Hop Require Export PacketCorr.
 Definition c15_ok := c03_ok.
+Definition c15x_ok := c03x_ok.
